@@ -221,6 +221,8 @@ def one_run(params):
     sim.judge_table_invariants = True      # (structural invariants of users[] at every select(): reported like a sanitizer finding)
     try:
         k = sim.k
+        if params["idx"] % 3 == 1:
+            k.sched_jitter = (0.5, 8000)       # iodined is resumed late now and then: hostile datagrams, tun packets and timers coincide
         extra = []
         if params["opt_c"]:
             extra.append("-c")
